@@ -794,7 +794,9 @@ class BosonicBackend(BaseBosonic):
             return np.array([res[:, 0] + 1j * res[:, 1]]).T
 
         res = select
-        self.circuit.post_select_heterodyne(mode, select)
+        # the circuit works with quadrature values, which are sqrt(2*hbar) times the
+        # real and imaginary part of the amplitude (cf. the factor 0.5 above)
+        self.circuit.post_select_heterodyne(mode, np.sqrt(2 * self.circuit.hbar) * complex(select))
         return np.array([[res]])
 
     def is_vacuum(self, tol=1e-10, **kwargs):
